@@ -186,6 +186,19 @@ def classify(ctx, j, o, exp):
         if case.get(flag) and o.get('exc') == 'IndexError' and ctx.open_finding(fid) and j.get('form', 'nodes') == 'nodes':
             ctx.known_hit(fid, dict(case=rec, observed=o.get('msg')))
             return 'known'
+    # D36 (extended class, also met in C09): a scalar source variable - no vectorisation, or a node alone in its kind - with
+    # a delayed edge and two or more undelayed edges that ride on its buffer: IndexError at the first call; loud
+    m, vec = case['m'], case['cfg']['vec']
+    bysrc = {}
+    for e in m['edges']:
+        key = e['s'] if (not vec or m['kind'].count(m['kind'][e['s'] - 1]) == 1) else None
+        if key is not None:
+            bysrc.setdefault(key, []).append(e)
+    riding = any(sum(1 for e in es if e['d'] > 0) >= 1 and sum(1 for e in es if e['d'] == 0) >= 2 for es in bysrc.values())
+    if riding and o.get('exc') == 'IndexError' and 'invalid index to scalar' in (o.get('msg') or '') and ctx.open_finding('D36') \
+            and j.get('form', 'nodes') == 'nodes':
+        ctx.known_hit('D36', dict(case=rec, observed=o.get('msg')))
+        return 'known'
     ctx.violation(dict(kind='conformance', what='rows of the user variables vs the explicit gamma-chain system', case=rec, observed=o, expected=exp))
     return 'violation'
 
